@@ -84,6 +84,7 @@ func (m *Mutex) Unlock() {
 	m.owner = nil
 	m.held = false
 	m.real.Unlock()
+	afterUnlock(callerSite(2))
 }
 
 // RWMutex replaces sync.RWMutex with Go's semantics: a waiting writer blocks new readers;
@@ -158,6 +159,7 @@ func (m *RWMutex) Unlock() {
 			m.readers++
 		}
 	}
+	afterUnlock(callerSite(2))
 }
 
 //go:norace
@@ -211,6 +213,7 @@ func (m *RWMutex) RUnlock() {
 	if s := cur(); s != nil && !s.inspect && s.current != nil {
 		s.current.held--
 	}
+	afterUnlock(callerSite(2))
 }
 
 //go:norace
@@ -358,4 +361,19 @@ func (c *Cond) Broadcast() {
 		close(ch)
 	}
 	c.waiters = nil
+}
+
+// afterUnlock: with the configured probability releasing a lock is a scheduling point as well, so
+// that what a task does with data it read under the lock can be overtaken by others.
+//
+//go:norace
+func afterUnlock(site string) {
+	s := cur()
+	if s == nil || s.inspect || s.killing || s.cfg.UnlockYield <= 0 || s.current == nil {
+		return
+	}
+	if s.unlockr.Bool(s.cfg.UnlockYield) {
+		s.Stats["unlock_yields"]++
+		s.yield(site)
+	}
 }
